@@ -298,8 +298,21 @@ def cell_scale(cell):
     return res
 
 
+def cell_bigproduct(cell):
+    """Well-formed spaces whose size exceeds 2^63 (many parameters at the cap range/precision <= 1e5)."""
+    res = _new_res()
+    for d, ratio in ((4, 1e5), (5, 1e4), (7, 1e3), (10, 100), (20, 10), (64, 1)):
+        for lo, p in ((0.0, 1.0), (-5.0, 0.5)):
+            bounds = [[lo] * d, [lo + ratio * p] * d]
+            _feed(res, bounds, [p] * d)
+            _feed(res, bounds, [p] * d, as_array=True)
+    res["states"] = res["evaluations"]
+    res["outcomes"] = sorted(res["outcomes"])
+    return res
+
+
 def run_cell(cell):
-    return {"values": cell_values, "shapes": cell_shapes, "scale": cell_scale}[cell["kind"]](cell)
+    return {"values": cell_values, "shapes": cell_shapes, "scale": cell_scale, "bigproduct": cell_bigproduct}[cell["kind"]](cell)
 
 
 def replay_case(case):
@@ -308,7 +321,7 @@ def replay_case(case):
 
 
 def main(ctx):
-    cells = [{"kind": "shapes"}]
+    cells = [{"kind": "shapes"}, {"kind": "bigproduct"}]
     t8 = list(itertools.product(V, repeat=3))
     t4 = list(itertools.product(V3, repeat=3))
     cells.append({"kind": "values", "d": 1, "first": t8})
